@@ -88,7 +88,12 @@ example :
     ((init [0, 1, 2, 3]).run ops).available.Perm [0, 1, 2, 3] ∧
     (((init [0, 1, 2, 3]).run (ops.take 5)).applyOp (.alloc (.wf 7 5 2) 2 (some 7))).2
       = some Err.runtime := by
-  decide
+  intro ops
+  refine ⟨?_, ?_, ?_⟩
+  · unfold FreshHist
+    decide
+  · decide
+  · decide
 
 end Cluster
 end Topsim
